@@ -27,7 +27,8 @@ VARIABLE prog
 Init == prog \in Family
 Next == UNCHANGED prog
 
-SetSeq(S) == IF S = {} THEN <<>> ELSE CHOOSE f \in [1..Cardinality(S) -> S] : \A a, b \in DOMAIN f : a # b => f[a] # f[b]
+RECURSIVE SetSeq(_)
+SetSeq(S) == IF S = {} THEN <<>> ELSE LET x == CHOOSE x \in S : TRUE IN <<x>> \o SetSeq(S \ {x})
 
 \* resolution must succeed for the denotation to be defined
 Resolves == Accepted(prog)       \* the denotation is defined for accepted programs
